@@ -6,6 +6,7 @@ package harness
 
 import (
 	"bytes"
+	"crypto/cipher"
 	"crypto/sha256"
 	"crypto/sha512"
 	"fmt"
@@ -16,6 +17,7 @@ import (
 	"go.dedis.ch/kyber/v4/encrypt/ecies"
 	"go.dedis.ch/kyber/v4/encrypt/ibe"
 	"go.dedis.ch/kyber/v4/sign/anon"
+	ukey "go.dedis.ch/kyber/v4/util/key"
 	"pgregory.net/rapid"
 )
 
@@ -55,11 +57,16 @@ func c16ECIES(t *rapid.T, ev *evProp) {
 		h = sha512.New
 	}
 	ks := xofStream(genSeed(t, "keys"))
-	x := g.Scalar().Pick(ks)
-	X := g.Point().Mul(x, nil)
 	msg := genPlain(t, 4096, []int{0, 1, 15, 16, 17, 31, 32, 33, 64, 1000, 4096})
-	ctx := fmt.Sprintf("ecies group=%s hash=%s |msg|=%d", gi.Name, hname, len(msg))
+	keygen := rapid.SampledFrom(keygenModes).Draw(t, "keygen")
+	ctx := fmt.Sprintf("ecies group=%s hash=%s |msg|=%d keygen=%s", gi.Name, hname, len(msg), keygen)
 	key := func(w string) string { return "C16/ecies/" + gi.Name + "/" + w }
+	xs, Xs := genKeyPairs(keySuite{g, ks}, keygen, 1+rapid.IntRange(0, 2).Draw(t, "morekeys"))
+	if why := keyPairsValid(g, xs, Xs); why != "" {
+		violationOrKnown(t, ev, key("keypair"), "%s\n%s", why, ctx)
+		return
+	}
+	x, X := xs[0], Xs[0]
 	gmsg, msgIntact := guard(msg)
 	ct, err := ecies.Encrypt(g, X, gmsg, h)
 	if why := msgIntact(); why != "" {
@@ -120,6 +127,59 @@ func c16ECIES(t *rapid.T, ev *evProp) {
 		}
 	}
 	ev.Case(true, ctx+" mut="+mut, "ecies:"+gi.Name, "ecies-mut:"+mut, fmt.Sprintf("ecies-len:%s", lenClass(len(msg))))
+}
+
+// keySuite: a group plus a deterministic random stream, as util/key wants it.  NewKey forwards to the
+// group's own key generator where it has one (Ed25519 clamps), so key.Pair.Gen takes that path too.
+type keySuite struct {
+	kyber.Group
+	r cipher.Stream
+}
+
+func (k keySuite) RandomStream() cipher.Stream { return k.r }
+func (k keySuite) NewKey(r cipher.Stream) kyber.Scalar {
+	if g, ok := k.Group.(ukey.Generator); ok {
+		return g.NewKey(r)
+	}
+	if w, ok := k.Group.(anonSuiteRand); ok {
+		if g, ok := w.Suite.(ukey.Generator); ok {
+			return g.NewKey(r)
+		}
+	}
+	return k.Scalar().Pick(r)
+}
+
+var keygenModes = []string{"pick", "pick", "NewKeyPair", "one-Pair-regenerated"}
+
+// genKeyPairs: n key pairs, picked directly, through key.NewKeyPair, or through ONE key.Pair object
+// whose Gen is called once per key (a scratch pair reused to build a recipient list).
+func genKeyPairs(ks keySuite, mode string, n int) ([]kyber.Scalar, []kyber.Point) {
+	xs, Xs := make([]kyber.Scalar, n), make([]kyber.Point, n)
+	scratch := new(ukey.Pair)
+	for i := 0; i < n; i++ {
+		switch mode {
+		case "NewKeyPair":
+			kp := ukey.NewKeyPair(ks)
+			xs[i], Xs[i] = kp.Private, kp.Public
+		case "one-Pair-regenerated":
+			scratch.Gen(ks)
+			xs[i], Xs[i] = scratch.Private, scratch.Public
+		default:
+			xs[i] = ks.Scalar().Pick(ks.r)
+			Xs[i] = ks.Point().Mul(xs[i], nil)
+		}
+	}
+	return xs, Xs
+}
+
+// keyPairsValid: every public key is its private key times the generator (also the earlier ones).
+func keyPairsValid(g kyber.Group, xs []kyber.Scalar, Xs []kyber.Point) string {
+	for i := range xs {
+		if !Xs[i].Equal(g.Point().Mul(xs[i], nil)) {
+			return fmt.Sprintf("key pair %d of %d: the public key handed out is not private*B any more", i, len(xs))
+		}
+	}
+	return ""
 }
 
 func lenClass(n int) string {
@@ -339,15 +399,16 @@ func c16Anon(t *rapid.T, ev *evProp) {
 	n := rapid.IntRange(1, 6).Draw(t, "n")
 	mine := rapid.IntRange(0, n-1).Draw(t, "mine")
 	ks := xofStream(genSeed(t, "keys"))
-	privs := make([]kyber.Scalar, n)
-	set := make(anon.Set, n)
-	for i := range set {
-		privs[i] = suite.Scalar().Pick(ks)
-		set[i] = suite.Point().Mul(privs[i], nil)
-	}
+	keygen := rapid.SampledFrom(keygenModes).Draw(t, "keygen")
+	privs, pubs := genKeyPairs(keySuite{suite, ks}, keygen, n)
+	set := anon.Set(pubs)
 	msg := genPlain(t, 600, []int{0, 1, 15, 16, 17, 32, 64, 600})
-	ctx := fmt.Sprintf("anon-enc suite=%s n=%d mine=%d |msg|=%d", name, n, mine, len(msg))
+	ctx := fmt.Sprintf("anon-enc suite=%s n=%d mine=%d |msg|=%d keygen=%s", name, n, mine, len(msg), keygen)
 	key := func(w string) string { return "C16/anon/" + name + "/" + w }
+	if why := keyPairsValid(suite, privs, pubs); why != "" {
+		violationOrKnown(t, ev, key("keypair"), "%s\n%s", why, ctx)
+		return
+	}
 	gmsg, msgIntact := guard(msg)
 	ct, err := anon.Encrypt(suite, gmsg, set)
 	if why := msgIntact(); why != "" {
@@ -435,21 +496,21 @@ func c16Anon(t *rapid.T, ev *evProp) {
 const c16Rule = "three generated families. (ECIES) the five ECIES groups (Ed25519, Edwards-vartime prime/full, P-256, QR-512) x hash {nil, SHA-256, SHA-512} x high-entropy messages of length {0,1,15..17,31..33,64,1000,4096,any<=4096}: decrypt(encrypt(m)) = m; no 16-byte plaintext block appears at its offset in the ciphertext; one mutation from {other key, any bit flip, bit flip in the ephemeral point, truncation, extension, other hash} must give an error (or the same plaintext when only an equivalent encoding of the same point was produced), never a panic. " +
 	"(IBE) every (suite, group assignment) whose identity group is hashable; CCA: messages up to the hash size round-trip and are hidden, longer ones are refused (or hidden), another identity's key / altered U / flipped, truncated or extended V, W are errors; CPA on G1: round trip and no plaintext block in the clear for every accepted message, lengths up to hash size + 48. " +
 	"(anonymous-set) suites Ed25519/P-256/BN256-G1/Edwards-vartime, sets of 1..6 keys, every recipient index, messages 0..600: round trip on a copy, hidden plaintext; wrong key, wrong index, a bit flip anywhere / in another recipient's header slot / own slot / body / MAC, truncation, extension are errors. non-trivial = every case with an applicable negative mutation or a boundary length; distinct = distinct rendered case" +
-	" Added after the sensitivity rounds: IBE-CCA sweep flipping one bit in every byte position of V and W."
+	" Added after the sensitivity rounds: IBE-CCA sweep flipping one bit in every byte position of V and W; key pairs are picked directly, made by key.NewKeyPair, or made by ONE key.Pair regenerated per key (earlier keys must stay private*B); plaintexts are passed as canary-tailed slices."
 
 func TestC16_ECIES(t *testing.T) {
 	ev := evFor("C16")
 	ev.Rule(c16Rule)
 	ev.Assume("ECIES and IBE draw their nonces from crypto/rand (no injection point): the properties hold for every nonce, a replay reproduces the failure with another nonce; anon.Decrypt is given copies because it overwrites the MAC bytes of its input")
-	rcheck(t, 500, 75000, func(t *rapid.T) { c16ECIES(t, ev) })
+	rcheck(t, 1000, 75000, func(t *rapid.T) { c16ECIES(t, ev) })
 }
 
 func TestC16_IBE(t *testing.T) {
 	ev := evFor("C16")
-	rcheck(t, 250, 30000, func(t *rapid.T) { c16IBE(t, ev) })
+	rcheck(t, 500, 30000, func(t *rapid.T) { c16IBE(t, ev) })
 }
 
 func TestC16_Anon(t *testing.T) {
 	ev := evFor("C16")
-	rcheck(t, 500, 75000, func(t *rapid.T) { c16Anon(t, ev) })
+	rcheck(t, 1000, 75000, func(t *rapid.T) { c16Anon(t, ev) })
 }
